@@ -243,6 +243,74 @@ pub fn run(tier: &str) -> i32 {
     rep.transitions += r2.done as u64 * 3;
     acc = Acc::merge(acc, r2.acc);
 
+    // ---- (2b) inline function calls on the right-hand side: x op f(y)
+    let mut fcl: Vec<Clause> = vec![];
+    for op in BINOPS {
+        for some in [false, true] {
+            for (fname, q) in [("count", vec![key("y"), Part::All]), ("to_lower", vec![key("y")]), ("parse_int", vec![key("y")]), ("to_upper", vec![key("y"), Part::All])] {
+                fcl.push(Clause::Binary { not: false, some, q: vec![key("x")], op, opneg: false, rhs: Arg::Call(fname.into(), vec![Arg::Q(false, q.clone())]), msg: None });
+                fcl.push(Clause::Binary { not: false, some, q: vec![key("x"), Part::All], op, opneg: false, rhs: Arg::Call(fname.into(), vec![Arg::Q(false, q)]), msg: None });
+            }
+        }
+    }
+    let fdocs: Vec<V> = {
+        let xs = [i(1), i(2), s("a"), s("A"), s("1"), l(vec![i(1), i(2)]), l(vec![s("a"), s("A")]), l(vec![])];
+        let ys = [s("a"), s("A"), s("1"), s("2"), l(vec![s("a")]), l(vec![s("a"), s("b")]), l(vec![]), i(1)];
+        let mut d = vec![];
+        for x in &xs {
+            for y in &ys {
+                d.push(V::Map(vec![("x".into(), x.clone()), ("y".into(), y.clone())]));
+            }
+        }
+        d
+    };
+    let fj: Vec<String> = fdocs.iter().map(|d| d.json()).collect();
+    let n2b = fcl.len() * fdocs.len();
+    let r2b = crate::par::run(n2b, rep.seed as u64, crate::par::deadline_secs(40), Acc::new, |k, acc| {
+        let (ci, di) = (k / fdocs.len(), k % fdocs.len());
+        check_clause(&fcl[ci], &fdocs[di], &fj[di], false, acc);
+    }, Acc::merge);
+    rep.states += r2b.done as u64;
+    rep.transitions += r2b.done as u64 * 3;
+    rep.extra.insert("function_rhs_clauses".into(), json!(fcl.len()));
+    acc = Acc::merge(acc, r2b.acc);
+
+    // ---- (3b) not p(args) for a parameterised rule: PASS exactly when the call is FAIL and the other way round, SKIP stays
+    {
+        let pool = leaf_pool();
+        let mut np = 0u64;
+        for body in [vec![vec![bin(vec![Part::Var("v".into())], BinOp::Eq, false, i(1))]], vec![vec![un(vec![Part::Var("v".into())], UnOp::Exists, false)], vec![pool[0].clone()]], vec![vec![pool[6].clone()]]] {
+            for arg in [Arg::Q(false, vec![key("a")]), Arg::Lit(i(1)), Arg::Q(false, vec![key("b")])] {
+                for sp in ["not ", "NOT ", "!"] {
+                    let pr = Rule { name: "p".into(), params: Some(vec!["v".into()]), when: None, lets: vec![], body: body.clone() };
+                    let call = |not: bool| Clause::Call { not, name: "p".into(), args: vec![arg.clone()], msg: None };
+                    let f = File { lets: vec![], rules: vec![pr, rule("r1", vec![vec![call(false)]]), rule("r2", vec![vec![call(true)]])], default: vec![] };
+                    let mut st = Style::default();
+                    st.not = sp;
+                    let t = print_file_with(&f, &st);
+                    for d in docs_quick().iter().step_by(2) {
+                        let dj = d.json();
+                        let o = lib_run(&t, &dj);
+                        acc.traces += 1;
+                        np += 1;
+                        if let Obs::Ok(_, rs) = &o {
+                            let g = |n: &str| rs.iter().find(|(k, _)| k == n).map(|(_, s)| *s);
+                            let (s1, s2) = (g("r1"), g("r2"));
+                            *acc.outcomes.entry(format!("notP-{}", s1.map_or("?", |s| s.txt()))).or_insert(0) += 1;
+                            if let Some(s1v) = s1 {
+                                if s2 != Some(swap(s1v)) {
+                                    acc.violate("prefix-not-ignored-on-parameterised-call", format!("p(..) is {:?} but `{}p(..)` is {:?}; rules `{}` data {}", s1, sp, s2, t.trim(), dj), json!({"kind":"lib","rules":t,"data":dj,"expected":format!("r2={}", swap(s1v).txt()),"observed":o.short()}));
+                                }
+                            }
+                        }
+                    }
+                }
+            }
+        }
+        rep.states += np;
+        rep.transitions += np;
+    }
+
     // ---- (3) not R: PASS exactly when R is not PASS
     let pool = leaf_pool();
     let dq = docs_quick();
